@@ -174,8 +174,6 @@ _D_OPS = {'d', 'a', 'y', 's', 'idle', 'g', 'acc', 'stop', 'crl'}
 
 def impl_eligible(scn):
     """The subset of scenarios the detailed model covers so far (grows with the model)."""
-    if any(b.get('wal') for b in scn['buses']):
-        return False
     if any(h.get('kind', 'async') not in ('async', 'fwd', 'sync') for h in scn['handlers']):
         return False
     if any((t or {}).get('rtype') for t in scn.get('events', {}).values()):
@@ -191,7 +189,7 @@ def impl_eligible(scn):
                     return False
     for ops in scn['drivers']:
         for op in ops:
-            if op[0] not in _D_OPS or (op[0] == 'd' and ((len(op) > 3 and op[3]) or len(op) > 4)) or (op[0] == 'idle' and len(op) > 2 and op[2] is not None and op[2] < 1000) \
+            if op[0] not in _D_OPS or (op[0] == 'd' and (len(op) > 3 and op[3])) or (op[0] == 'idle' and len(op) > 2 and op[2] is not None and op[2] < 1000) \
                     or (op[0] == 'stop' and ((len(op) > 2 and op[2]) or (len(op) > 3 and op[3]))):
                 return False
     return True
@@ -244,6 +242,8 @@ def impl_trace(tr, tid):
                     out[k] = l[k]
             if a == 'HEnter':
                 out['byk'], out['bya'] = _by(l['by'])
+            if a == 'Wal':
+                out['at'] = 'write'
         out['s'] = {'q': dict(q), 'hist': dict(hist), 'snap': list(snap), 'unf': x['unf'], 'idle': x['idle'], 'running': x['running'],
                     'semv': x['semv'], 'depth': x['depth']}
         lines.append(out)
